@@ -9,6 +9,79 @@ pub mod node {
     /// `Ord`/`Eq`/`Copy` on it, so a 1-byte ordered id is an abstraction, not a different program.
     pub type NodeId = crate::vcoll::Id;
     pub mod sync;
+
+    /// `radicle::node::Address`: only moved around by the fetcher.
+    #[derive(Clone, Debug, PartialEq, Eq)]
+    pub struct Address;
+
+    /// Model of `radicle::node::FetchResult` (the real `Success` variant carries ref updates and a
+    /// namespace set, which the fetcher never inspects).
+    #[derive(Clone, Debug)]
+    pub enum FetchResult {
+        Success,
+        Failed { reason: String },
+    }
+    impl FetchResult {
+        pub fn is_success(&self) -> bool {
+            matches!(self, FetchResult::Success)
+        }
+    }
+
+    /// Model of `radicle::node::FetchResults` (really an insertion-ordered `Vec<(NodeId,
+    /// FetchResult)>`): per node id the first result pushed plus the *number* of further results, so
+    /// that `get` (= first match) and the counts of `success()` / `failed()` (= all entries,
+    /// duplicates included) behave like the real list.  This type is a *model*, not /repo's code.
+    #[derive(Clone, Debug, Default)]
+    pub struct FetchResults {
+        first: [Option<FetchResult>; 4],
+        more_ok: [u8; 4],
+        more_failed: [u8; 4],
+    }
+    static NODES: [NodeId; 4] = [crate::vcoll::Id(0), crate::vcoll::Id(1), crate::vcoll::Id(2), crate::vcoll::Id(3)];
+    impl FetchResults {
+        pub fn push(&mut self, nid: NodeId, result: FetchResult) {
+            let i = nid.0 as usize;
+            assert!(i < 4);
+            // concrete slot order, symbolic match: no symbolic array index
+            let mut k = 0;
+            while k < 4 {
+                if k == i {
+                    if self.first[k].is_none() {
+                        self.first[k] = Some(result);
+                        return;
+                    } else if result.is_success() {
+                        self.more_ok[k] += 1;
+                    } else {
+                        self.more_failed[k] += 1;
+                    }
+                    return;
+                }
+                k += 1;
+            }
+        }
+        pub fn get(&self, nid: &NodeId) -> Option<&FetchResult> {
+            let mut k = 0;
+            while k < 4 {
+                if k == nid.0 as usize {
+                    return self.first[k].as_ref();
+                }
+                k += 1;
+            }
+            None
+        }
+        pub fn success(&self) -> impl Iterator<Item = (&NodeId, (), ())> + '_ {
+            (0..4usize).flat_map(move |k| {
+                let n = self.first[k].as_ref().map_or(0, |r| r.is_success() as usize) + self.more_ok[k] as usize;
+                std::iter::repeat((&NODES[k], (), ())).take(n)
+            })
+        }
+        pub fn failed(&self) -> impl Iterator<Item = (&NodeId, &str)> + '_ {
+            (0..4usize).flat_map(move |k| {
+                let n = self.first[k].as_ref().map_or(0, |r| !r.is_success() as usize) + self.more_failed[k] as usize;
+                std::iter::repeat((&NODES[k], "")).take(n)
+            })
+        }
+    }
 }
 
 pub mod identity {
